@@ -162,7 +162,7 @@ def check_case(case) -> Result:
             res.check("C17/shift-invariant-field", float(np.max(np.abs(m1 - m2))), tol, f"shift {case['shift']!r}: field changes (relative increment perturbation {pert!r});")
             scale = max(float(np.max(np.abs(rf1))), 1e-300)
             # the flux stencil's rounding (three nearly equal values, ~ eps |m| nx) is integrated over the whole run
-            round_flux = 64 * np.finfo(float).eps * abs(r.m_i) * r.case["nx"] * float(time[-1] - time[0])
+            round_flux = 1024 * np.finfo(float).eps * abs(r.m_i) * r.case["nx"] * float(time[-1] - time[0])
             res.check("C17/shift-invariant-recovery", float(np.max(np.abs(rf1 - rf2))), scale * (1e-6 + 4 * pert) + 1e-12 + round_flux, f"shift {case['shift']!r}: flux recovery changes;")
             if single:
                 scale = max(float(np.max(np.abs(rfd1))), 1e-300)
